@@ -407,6 +407,15 @@ def check_emission(P, R):
                         cp_ = compare_parts(y)
                         if cp_ and cp_[1] is ast.NotIn and src(cp_[2]) == bname:
                             filt.append(y)
+                            # what is looked up in the blacklist of *names* is the name of the stored pair (element 0)
+                            tg_ = x.target
+                            lhs_ = cp_[0]
+                            is_name = (isinstance(tg_, ast.Tuple) and tg_.elts and isinstance(tg_.elts[0], ast.Name) and isinstance(lhs_, ast.Name) and lhs_.id == tg_.elts[0].id) or \
+                                (isinstance(tg_, ast.Name) and isinstance(lhs_, ast.Subscript) and isinstance(lhs_.value, ast.Name) and lhs_.value.id == tg_.id and is_const(lhs_.slice, 0))
+                            R.ob('C14.d', f, y, is_name, text=f'`{short(y)}` tests the header name', detail='' if is_name else
+                                 f'`{short(lhs_)}` is not the name of the stored (name, values) pair: the forbidden entity headers are no longer recognised by name and are '
+                                 f'emitted for 204 / 304 (a header whose value happens to equal a forbidden name is dropped instead)',
+                                 why='entity headers forbidden for 204 and 304 responses are withheld', key_extra='blacklist-by-name')
         # (b) loop form: inside the emitting loop `if <name> in <blacklist>: continue` before the pair is appended
         for (node_, _, _) in emitted:
             if not isinstance(node_, ast.Call):
@@ -495,6 +504,27 @@ def check_emission(P, R):
                  f'the status code kept for a status given as text is `{short(bad_[0]) if bad_ and bad_[0] is not None else "?"}`, not an int: headerlist looks the code up in the '
                  f'int-keyed bad_headers table, finds nothing for "304" / "204" and emits the forbidden entity headers (and the default Content-Type)',
                  why='entity headers forbidden for 204 and 304 responses are withheld, however the status was given', key_extra='status-code-int')
+    # the code that selects the blacklist and the status line that is sent are written together, wherever either is written
+    n_pairs = 0
+    for fx in P.all_funcs():
+        if not fx.fq.startswith('ombott.') or isinstance(fx.node, ast.Lambda):
+            continue
+        writes = {}
+        for st_ in walk_shallow(fx.node):
+            if isinstance(st_, ast.Assign):
+                for t_ in st_.targets:
+                    for t2 in (t_.elts if isinstance(t_, ast.Tuple) else [t_]):
+                        if isinstance(t2, ast.Attribute) and t2.attr in ('_status_line', '_status_code'):
+                            writes.setdefault(src(t2.value), {}).setdefault(t2.attr, st_)
+        for recv, w in writes.items():
+            n_pairs += 1
+            ok = set(w) == {'_status_line', '_status_code'}
+            st_ = list(w.values())[0]
+            R.ob('C14.d', fx, st_, ok, text=f'{recv}._status_line and {recv}._status_code are written together', detail='' if ok else
+                 f'`{short(st_)}` sets {sorted(w)[0]} of `{recv}` without the other half: the status line that is sent and the code that selects the per-status blacklist '
+                 f'disagree - a copy of a 304 announces 304 and still emits Content-Length, Last-Modified and the default Content-Type',
+                 why='entity headers forbidden for 204 and 304 responses are withheld', key_extra='status-pair')
+    R.require(n_pairs >= 2, f'{n_pairs} writers of the status pair found (3 on the pinned tree)')
     # names in the table are spelled the way they are stored? (comparison is exact: report as note)
     # wsgi passes response.headerlist to start_response
     w = P.func('ombott.ombott:Ombott.wsgi')
